@@ -119,6 +119,9 @@ func crashScenario(spec *crashSpec) *Scenario {
 				mu.Unlock()
 				return t
 			}
+			var shutdownAErr error
+			var shutdownAAt, shutdownAFrom time.Duration
+			shutdownAReturned := false
 			noteErr := func(who string, err error) {
 				mu.Lock()
 				readErrs = append(readErrs, fmt.Sprintf("%s: %v", who, err))
@@ -238,8 +241,12 @@ func crashScenario(spec *crashSpec) *Scenario {
 				m.Sleep(300 * time.Millisecond)
 				ctx, cancel := context.WithTimeout(context.Background(), 100*time.Second)
 				defer cancel()
+				shutdownAStart := m.S.Now()
 				err = a.Shutdown(ctx)
 				noteErr("shutdownA", err)
+				mu.Lock()
+				shutdownAErr, shutdownAAt, shutdownAFrom, shutdownAReturned = err, m.S.Now(), shutdownAStart, true
+				mu.Unlock()
 			}
 			track(0, m.Go("sessA", func() { session(0) }))
 			track(1, m.Go("sessB", func() { session(1) }))
@@ -358,11 +365,13 @@ func crashScenario(spec *crashSpec) *Scenario {
 						return true
 					})
 					abortDelivered := false
+					var abortAt time.Duration
 					for _, ev := range m.W.events {
 						if ev.Kind == "deliver" && ev.From == side && ev.Pkt.dec != nil {
 							for _, c := range ev.Pkt.dec.Chunks {
-								if c.Typ == wABORT {
+								if c.Typ == wABORT && !abortDelivered {
 									abortDelivered = true
+									abortAt = ev.At
 								}
 							}
 						}
@@ -386,6 +395,13 @@ func crashScenario(spec *crashSpec) *Scenario {
 								}
 								if e := s.readErr.Error(); !strings.Contains(e, "User Initiated Abort") || !strings.Contains(e, "why") {
 									bad = append(bad, fmt.Sprintf("peer stream %d failed with %q, which does not carry the abort cause", s.streamIdentifier, e))
+								}
+							}
+							// a Shutdown call of the peer that was waiting when the ABORT arrived and ends with
+							// an error: that error is how this caller learns why, so it carries the cause too
+							if pa == m.As[0] && shutdownAReturned && shutdownAErr != nil && shutdownAFrom < abortAt && shutdownAAt >= abortAt {
+								if e := shutdownAErr.Error(); !strings.Contains(e, "User Initiated Abort") || !strings.Contains(e, "why") {
+									bad = append(bad, fmt.Sprintf("the peer's Shutdown call, blocked when the ABORT arrived, failed with %q, which does not carry the abort cause", e))
 								}
 							}
 							mu.Unlock() // Failf takes the same mutex
@@ -512,6 +528,7 @@ func propC09(j *Job) {
 	// ABORT while the other side is still inside its connect call
 	for _, b := range bases[:2] { // (two clients complete each other's handshake without COOKIE-ACKs)
 		j.Explore(fmt.Sprintf("AH/%s", b.name), abortDuringConnectScenario(b.a, b.b), Budget{}, nil)
+		j.Explore(fmt.Sprintf("AS/%s", b.name), abortDuringShutdownScenario(b.a, b.b), Budget{}, nil)
 	}
 	// a blocking write made from the buffered-amount callback, ended by Close / Abort
 	for bi, b := range bases {
@@ -782,6 +799,66 @@ func abortDuringConnectScenario(a, b epCfg) *Scenario {
 				}
 			}
 			m.closeFailedTransports()
+			m.CloseBoth()
+			(&wconn{w: m.W, id: 0}).Close()
+			(&wconn{w: m.W, id: 1}).Close()
+		},
+		Final: func(m *Sim, x *Exec) { generalVerdicts(m, x, true) },
+	}
+}
+
+// abortDuringShutdownScenario: one side has data it cannot get acknowledged (its DATA packets
+// are lost) and is blocked in Shutdown, waiting in SHUTDOWN-PENDING, when the peer aborts.  The
+// Shutdown call - and, blockWrite, a write blocked behind the pending data - returns promptly
+// with an error that carries the abort cause: it is how this caller learns why.
+func abortDuringShutdownScenario(a, b epCfg) *Scenario {
+	return &Scenario{
+		Name:    "abort-during-shutdown",
+		Horizon: 120 * time.Second,
+		Body: func(m *Sim) {
+			if !m.Connect(a, b) {
+				m.Failf("connect", "handshake failed: %v %v", m.Err[0], m.Err[1])
+				m.closeFailedTransports()
+				m.CloseBoth()
+				return
+			}
+			sa, _ := m.As[0].OpenStream(1, PayloadTypeWebRTCBinary)
+			m.streamsSeen = append(m.streamsSeen, sa)
+			m.W.killFn = func(p *wpkt) bool {
+				if p.dec == nil || p.from != 0 {
+					return false
+				}
+				for _, c := range p.dec.Chunks {
+					if c.Typ == wDATA || c.Typ == wIDATA {
+						return true
+					}
+				}
+				return false
+			}
+			_, _ = sa.WriteSCTP(payload(1, 0, 100), PayloadTypeWebRTCBinary)
+			var shutErr error
+			ts := m.Go("shutdownA", func() {
+				ctx, cancel := context.WithTimeout(context.Background(), 60*time.Second)
+				defer cancel()
+				shutErr = m.As[0].Shutdown(ctx)
+			})
+			m.Sleep(300 * time.Millisecond)
+			if ts.Done || m.As[0].getState() != shutdownPending {
+				m.Failf("e1.base", "Shutdown is not waiting in SHUTDOWN-PENDING (done=%v state=%s)", ts.Done, getAssociationStateString(m.As[0].getState()))
+			}
+			m.As[1].Abort("why")
+			ok := m.WaitUntil("shutdown-returned", 5*time.Second, func() bool { return ts.Done })
+			switch {
+			case !ok:
+				m.Failf("abort.peer", "the ABORT reached the side blocked in Shutdown but the call has not returned 5 s later")
+			case shutErr == nil:
+				m.Failf("abort.peer", "Shutdown returned nil after the peer had aborted with data unacknowledged")
+			default:
+				if e := shutErr.Error(); !strings.Contains(e, "User Initiated Abort") || !strings.Contains(e, "why") {
+					m.Failf("abort.cause", "the Shutdown call of the side that received the ABORT failed with %q, which does not carry the abort cause", e)
+				}
+			}
+			m.W.killFn = nil
 			m.CloseBoth()
 			(&wconn{w: m.W, id: 0}).Close()
 			(&wconn{w: m.W, id: 1}).Close()
